@@ -138,6 +138,12 @@ partial def parseExpr : List String → Option (E × List String)
     let (b, rest) ← parseExpr rest
     let (c, rest) ← parseExpr rest
     pure (.call3 fn a b c, rest)
+  | "F" :: fn :: "4" :: rest => do
+    let (a, rest) ← parseExpr rest
+    let (b, rest) ← parseExpr rest
+    let (c, rest) ← parseExpr rest
+    let (d, rest) ← parseExpr rest
+    pure (.call4 fn a b c d, rest)
   | _ => none
 
 def parseScope : List String → Option (Scope Float)
@@ -208,12 +214,16 @@ partial def brOf (ctx : Ctx Float) (σ : Scope Float) : E → Cache → List Str
     here ++ brOf ctx σ l c.k1 ++ brOf ctx σ r c.k2
   | .call0 fn, _ => [if stateful (F := Float) (.call0 fn) then "call-stateful" else "call0"]
   | .call1 fn a, c =>
-    [if stateful (F := Float) (.call0 fn) then "call-stateful" else if fn == "isPresent" then "call-isPresent" else "call1"] ++
+    [if stateful (F := Float) (.call0 fn) then "call-stateful" else if fn == "isPresent" then "call-isPresent"
+     else if (Lib.builtin floatOps fn [match typeP ctx σ a with | some .string => Value.str [] | some .int => .int 0 | some .bool => .bool true | some .duration => .dur 0 | _ => .float 0.0]).isSome then "call1-native" else "call1-oracle"] ++
       (if typeP ctx σ a == some .missing then ["arg-missing"] else []) ++ brOf ctx σ a c.k1
-  | .call2 _ a b, c => ["call2"] ++ brOf ctx σ a c.k1 ++ brOf ctx σ b c.k2
+  | .call2 fn a b, c =>
+    [if Lib.nativeFns.contains fn then "call2-native" else "call2-oracle"] ++ brOf ctx σ a c.k1 ++ brOf ctx σ b c.k2
   | .call3 fn a b d, c =>
     [if fn == "if" then "call-if" else if fn == "strSubstring" then "call-substr" else "call3"] ++
       brOf ctx σ a c.k1 ++ brOf ctx σ b c.k2 ++ brOf ctx σ d c.k3
+  | .call4 _ a b d e, c =>
+    ["call4"] ++ brOf ctx σ a c.k1 ++ brOf ctx σ b c.k2 ++ brOf ctx σ d c.k3a ++ brOf ctx σ e c.k3b
   | .callMany _, _ => ["call-too-many-args"]
 
 structure St where
